@@ -149,14 +149,17 @@ def r1(ctx):
     ctx.rule(R, "pump_proxy_event: every path from HippoHTTPFlow.from_state to any exit (normal or exceptional, "
                 "including exceptions raised inside the finally body) passes the hand-back statement "
                 "`if not flow.taken and not flow.resumed: flow.resume()`; run() survives a failing event")
-    pe = repo.fn("MITMProxyEventManager.pump_proxy_event")
-    fns = [f for f in class_methods_reachable(repo, pe, depth=2) if f.cls is not None and f.cls == pe.cls]
+    pe0 = repo.fn("MITMProxyEventManager.pump_proxy_event")
+    pe = inlined_funcinfo(repo, pe0, depth=2)     # dispatch / hand-back helpers spliced in where possible
+    fns = [pe] + [f for f in class_methods_reachable(repo, pe0, depth=2) if f.cls is not None and f.cls == pe0.cls and f != pe0]
     fs = [c for c in find_calls(pe.node, "from_state") if (ap(c.func) or "").endswith("HippoHTTPFlow.from_state")]
     ctx.require(len(fs) == 1, f"{R}: expected exactly one HippoHTTPFlow.from_state call in pump_proxy_event, found {len(fs)}")
     st = enclosing_stmt(fs[0])
     ctx.require(isinstance(st, (ast.Assign, ast.AnnAssign)), f"{R}: from_state result is not bound to a name")
     flow_var = ap(st.targets[0] if isinstance(st, ast.Assign) else st.target)
-    resumes = [(f, c) for f in fns for c in find_calls(f.node, "resume", into_defs=False) if not c.args]
+    resumes = [(pe, c) for c in find_calls(pe.node, "resume", into_defs=False) if not c.args]
+    if not resumes:
+        resumes = [(f, c) for f in fns[1:] for c in find_calls(f.node, "resume", into_defs=False) if not c.args]
     ctx.ob(R, "pump_proxy_event path has exactly one hand-back site", len(resumes) == 1, pe.where,
            f"found {[f.qual + ': ' + norm(c) for f, c in resumes]}")
     if len(resumes) != 1:
@@ -930,6 +933,29 @@ def _ctor_domain(ctx, R, repo, sd, sf, des):
                        f"hydration does {by_name[field].name}[...] on it: KeyError inside from_state, before the try/finally")
             elif field in by_name and isinstance(v, EnumVal):
                 pass  # reported above
+    # a field carried by member *name* needs an enum whose stored values all have a name that looks itself up:
+    # a Flag whose members are combined into composite values does not
+    for field, ci in sorted(by_name.items()):
+        is_flag = any(b.split(".")[-1] in ("Flag", "IntFlag") for c_ in repo.mro(ci) for b in c_.base_names)
+        combos = []
+        if is_flag:
+            def member(e, ci=ci):
+                p_ = ap(e) or ""
+                return p_.startswith(ci.name + ".") or ("." + ci.name + ".") in p_
+            for g_ in repo.all_funcs:
+                if g_.parent_fn is not None:
+                    continue
+                for x in walk(g_.node, into_defs=True):
+                    if isinstance(x, ast.AugAssign) and isinstance(x.op, ast.BitOr) and member(x.value):
+                        combos.append((g_, x))
+                    elif isinstance(x, ast.BinOp) and isinstance(x.op, ast.BitOr) and (member(x.left) or member(x.right)) \
+                            and not any(isinstance(a, ast.BinOp) and isinstance(a.op, ast.BitAnd) for a in ancestors(x)
+                                        if isinstance(a, ast.expr)):
+                        combos.append((g_, x))
+        ctx.ob(R, f"{ci.name}: every stored value has a member name (SerializedCapData.{field} carries the name)",
+               not combos, f"{ci.module.rel}:{ci.node.lineno}",
+               f"{ci.name} is a Flag and members are combined ({[g_.qual + ': ' + norm(x) for g_, x in combos[:3]]}): a composite "
+               f"value has no name that {ci.name}[...] can look up on hydration")
     ctx.ob(R, "SerializedCapData constructions checked against the field domains", n >= 1, f"{sd.module.rel}:{sd.node.lineno}",
            f"{n} construction site(s), enum-by-name fields {sorted(by_name)}")
 
@@ -1233,6 +1259,35 @@ def r4(ctx):
                    ctx.w(m, hc), f"pre-hook snapshots: {sorted(stale)}")
     ctx.floor(R, "http hook call sites in the event manager", n_hooks, 2)
 
+    # ---- the message logger sees the flow before it is handed back: a log entry must not modify the flow it wraps
+    le = repo.cls("HTTPMessageLogEntry")
+    n_le = 0
+    for mname, m in sorted(le.methods.items()):
+        aliases = set()
+        for _ in range(3):
+            for s_ in stores(m.node, into_defs=False):
+                if s_.kind == "assign" and isinstance(s_.target, ast.Name) and s_.value is not None and any(
+                        (ap(x) or "").startswith("self.flow.") or (isinstance(x, ast.Name) and x.id in aliases)
+                        for x in ([s_.value] + (list(s_.value.elts) if isinstance(s_.value, (ast.Tuple, ast.List)) else []))):
+                    aliases.add(s_.path)
+            for lp in [x for x in walk(m.node) if isinstance(x, ast.For)]:
+                its = lp.iter.elts if isinstance(lp.iter, (ast.Tuple, ast.List)) else [lp.iter]
+                if any((ap(x) or "").startswith("self.flow.") or (isinstance(x, ast.Name) and x.id in aliases) for x in its):
+                    aliases |= {n_.id for n_ in ast.walk(lp.target) if isinstance(n_, ast.Name)}
+        for s_ in stores(m.node, into_defs=False):
+            root = s_.path.split(".")[0].replace("[]", "")
+            hits = s_.path.startswith("self.flow.") or (root in aliases and ("." in s_.path or s_.kind in
+                                                        ("setitem", "augsetitem", "delitem", "mutcall")))
+            if s_.kind == "assign" and s_.path in aliases:
+                hits = False
+            if hits:
+                n_le += 1
+                ctx.ob(R, f"{m.qual}: `{norm(s_.node)}` does not modify the logged flow", False, ctx.w(m, s_.node),
+                       "the logger runs before flow.resume() serialises the flow: what it changes here is what goes "
+                       "back to the proxy process (rewritten request / injected response not intact)")
+    ctx.ob(R, "HTTPMessageLogEntry never writes into the flow it wraps", n_le == 0, f"{le.module.rel}:{le.node.lineno}",
+           f"{n_le} store(s) through self.flow")
+
     # ---- metadata defaults
     fc = repo.cls("HippoHTTPFlow", FLOW)
     init = repo.fn("HippoHTTPFlow.__init__")
@@ -1287,5 +1342,13 @@ def run(ctx):
     idx = call_index(ctx.repo)
     others = [f.qual for f, c in idx.get("resume", []) if not c.args and f.qual not in
               ("MITMProxyEventManager.pump_proxy_event", "IPCInterceptionAddon._pump_callbacks")]
+    for f, c in idx.get("take", []):
+        if c.args or not f.module.rel.startswith("hippolyzer/"):
+            continue
+        outer = [a for a in ancestors(c) if isinstance(a, ast.Call)]
+        if len(outer) >= 2:
+            ctx.note(f"C15: {f.qual} evaluates `{norm(c)}` as an argument of `{norm(outer[-1].func)}(...)`: if that call "
+                     f"raises (e.g. BaseAddon._schedule_task without a session) the flow stays taken and is never "
+                     f"resumed (not armed: depends on code outside the anchored hand-back structure)")
     if others:
         ctx.note(f"C15: resume() also called by {sorted(set(others))} (code holding a taken flow; not checked)")
